@@ -10,5 +10,12 @@ doc = ('"""Function and method names of the library as of the tree the rules wer
        'of it as transparent (its return expression is substituted), so that extracting a block into a new\\n'
        'helper does not change what the rules see.  Regenerate with tools/gen_anchors.py only when rules are\\n'
        're-validated against a new baseline."""\\n\\n')
-open("/verif/sa/anchors.py", "w").write(doc.replace("\\n", "\n") + "KNOWN_FUNCTIONS = frozenset(%r)\n" % names)
+import os
+os.environ["VERIF_NO_FLATTEN"] = "1"
+priv = {}
+for q, f in sorted(m.funcs.items()):
+    if f.name.startswith("_") and not f.name.startswith("__") and f.parent is None:
+        priv["%s:%s:%s" % (f.path, f.cls or "", f.name)] = list(f.params)
+open("/verif/sa/anchors.py", "w").write(doc.replace("\\n", "\n") + "KNOWN_FUNCTIONS = frozenset(%r)\n" % names
+    + "\n# private functions of the baseline: 'path:class:name' -> parameter names (used to recognise a pure rename)\nPRIVATE_SIGNATURES = %s\n" % __import__("pprint").pformat(priv, width=160))
 print(len(names), "names")
